@@ -164,6 +164,13 @@ func process1ListMerge(obj []any, mergeFrom *Document, mergeFromDocs []*Document
 		return nil, err
 	}
 
+	// References inside the referenced list are resolved before it is
+	// merged in: its own $merge entries are list markers only there.
+	in, err = process1(in, mergeFrom, mergeFromDocs, depth)
+	if err != nil {
+		return nil, err
+	}
+
 	return mergeList(obj, in)
 }
 
